@@ -39,7 +39,7 @@ CLAIMS = {
              '_commit_or_rollback are executed with every DB-API call (connect, cursor, execute, commit, rollback, close, autocommit switch), on_connect and '
              'flush allowed to fail at every point; on every path the SQLite transaction lock is held iff the cache is in a transaction, never double-acquired '
              'or double-released, free at session end, and every connection handed out by the pool is returned or closed exactly once. BOUNDED (<= 2 resumptions, shared with C18): a db_session generator is '
-             'never suspended with unflushed changes or an open transaction. A session over two databases (shared with C17): whatever fails, every session cache is released and none outlives the session.',
+             'never suspended with unflushed changes or an open transaction. A session over two databases (shared with C17): whatever fails, every session cache is released and none outlives the session. Database.disconnect with a session left open in interactive mode leaves no session holding a closed connection.',
         note='Thread schedules (two or three sessions) are NOT covered: outside this technique. Ground obligations (decided by evaluation after path enumeration). '
              'Trusted: GhostLock as single-thread model of threading.Lock; DB-API stubs return-or-raise; psycopg2 stub module only supplies exception classes.'),
     'C36': dict(
@@ -95,7 +95,7 @@ CLAIMS = {
              'expressions, lambdas with defaults, attribute, call with positional / keyword / * / ** arguments and generator argument, subscripts, slices, tuples, lists, '
              'dicts, f-strings with conversions, (nested) format specs and literal braces, generator expressions; 65 child productions incl. constants of every kind and '
              'folded negative constants) the regenerated text parses back (CPython parser as oracle) to the same tree or is rejected; thorough tier closes depth 3 over the '
-             'operator core. Only the source-regeneration half of C04.',
+             'operator core. Only the source-regeneration half of C04; the outer-scope half is BOUNDED (frames scenarios, incl. nested generators whose loop variable is named like a variable of the caller).',
         note='The step from depth-2 trees to all trees rests on the locality of parenthesisation in Python\'s expression grammar (assumption). External-node detection '
              '(PreTranslator) and evaluation in the caller scope (extract_vars, get_globals_and_locals) only BOUNDED (never counted as proved): ~55 ways of mentioning outer-scope values '
              '(globals, locals, closures, shadowing, rebinding between runs, function / generator objects made in another module) on real SQLite against Python evaluation. The decompiler is C03.'),
@@ -103,7 +103,7 @@ CLAIMS = {
         text='Proof over symbolic maps (z3 arrays with arbitrary content, skolem key): SessionCache.update_simple_index / db_update_simple_index change the key index to '
              'exactly old-removed / new -> obj with every other key unchanged, raise (and change nothing, record nothing) exactly when the new key is held by another object, '
              're-establish the representation invariant, and record the exact undo entry; EntityMeta._get_from_identity_map_ on real entities returns the object '
-             'registered under pk itself (class refinement only towards a subclass) or registers the new object at exactly pk. Composite indexes (arity 2, 3) BOUNDED.',
+             'registered under pk itself (class refinement only towards a subclass) or registers the new object at exactly pk. Composite indexes (arity 2, 3) BOUNDED; so are raw-key resolution (keys of 3-4 raw columns, 9 ways of reaching a row) and a key of a key named by a raw text that validation normalises.',
         note='The representation invariant (obj occurs in an index only under its current value) is a precondition; its preservation per function is proved, the induction '
              'over whole histories is not claimed. SymDict = CPython dict semantics on z3 arrays (trusted encoding).'),
     'C13': dict(
@@ -192,7 +192,7 @@ CLAIMS = {
              'connection; every write call site of core.py (created / updated / deleted via SessionCache.flush and Entity.flush, m2m add / remove, bulk delete, Database.execute / insert) '
              'reaches _exec_sql with start_transaction=True or cache.immediate set (all call sites from the AST exercised). One db_session over TWO databases (every fault point, objects waiting for the '
              'flush inside commit(), the body calling commit() itself): no database is left with writes neither committed nor rolled back, no session cache outlives the session, each database for itself '
-             'holds none or all of the session\'s writes; atomicity ACROSS databases is not claimed (commit() commits the primary first, by design).',
+             'holds none or all of the session\'s writes; atomicity ACROSS databases is not claimed (commit() commits the primary first, by design), but every database is flushed before the first one is committed.',
         note='Crash points and the file contents seen by a new process are NOT explored (outside the technique): they reduce to the database\'s transaction guarantee under the clauses proved. '
              'Trusted: the ledger model of DB-API connections; the body stops at its first exception.'),
     'C35': dict(
@@ -249,7 +249,7 @@ CLAIMS = {
              'index_list / foreign_key_list match hand-written expectations (columns, NOT NULL, primary keys, unique and plain indexes, composite and self-referencing foreign keys, '
              'single-table inheritance, custom names), names distinct, check_tables passes on the created schema; 10 model families x PostgreSQL / MySQL / Oracle: DDL objects generated '
              'from the real schema: every name within max_name_len, names pairwise distinct, every table once and every foreign key declared by the entity model exactly once after both of its tables '
-             '(self references, reference cycles, composite keys), or the mapping is refused with DBSchemaError.',
+             '(self references, reference cycles, composite keys), or the mapping is refused with DBSchemaError. On SQLite every foreign key column, link tables included, has the declared type of the key column it refers to.',
         note='Catalog introspection on SQLite only; for server dialects the DDL text only (providers built without a connection). lower() / upper() assumed length-preserving. '
              'Two Oracle known findings (sequence name of schema-qualified tables; sequence / trigger name longer than 30).'),
     'C29': dict(
@@ -291,7 +291,7 @@ CLAIMS = {
              'failing flush nothing since the last commit is visible; symmetric links stored both ways; no dangling reference. Exhaustive histories of <= 2 operations x ways of ending the '
              'session; 1000 (thorough: 150000) random histories of <= 10 steps generated from VERIF_SEED; each history with objects loaded on demand and with everything loaded beforehand '
              '(one flush at the end). Collection histories: every sequence of <= 3 of 15 add / remove / assign / clear operations on one collection (many-to-many from either side, one-to-many, '
-             '3 initial contents, loaded or not): session content and committed rows equal the set the operations leave.',
+             '3 initial contents, loaded or not): session content and committed rows equal the set the operations leave. One attribute of the history model is volatile and is changed by assignment and through Entity.set().',
         note='A relation between the database and a reference model over whole histories: no single-call contract expresses it; this is model-based exploration of the write path used as a '
              'bounded stand-in. The reference model (70 lines) is trusted.'),
 }
